@@ -13,6 +13,7 @@ import (
 	"time"
 
 	"github.com/tdakkota/docker-logql/internal/dockerlog"
+	"github.com/tdakkota/docker-logql/internal/logql"
 	"github.com/tdakkota/docker-logql/internal/logql/logqlengine"
 	"github.com/tdakkota/docker-logql/internal/lokiapi"
 	"github.com/tdakkota/docker-logql/internal/otelstorage"
@@ -50,6 +51,11 @@ type c02Input struct {
 	// other names / states / labels) with BeforeMatchers; nothing of it may show in the answer over Ctrs.
 	Before         []c02Ctr     `json:"before,omitempty"`
 	BeforeMatchers []c02Matcher `json:"before_matchers,omitempty"`
+	// Dots: the Engine is built with ParseOptions.AllowDots, so selectors may name labels with dots in them. No
+	// container has such a label (Docker label keys are sanitised): the name reads as an absent label.
+	Dots bool `json:"dots,omitempty"`
+	// Limit: the entry limit of the request (0 = none): it limits the answer, never what is asked of the daemon.
+	Limit int `json:"limit,omitempty"`
 }
 
 // refLabels is the specification of a container's label set.
@@ -183,6 +189,9 @@ func c02Exec(in c02Input) (c02Obs, []fakedocker.LogCall) {
 		query = "count_over_time(" + sel + "[2s])"
 		params.End = params.Start
 	}
+	if in.Limit > 0 {
+		params.Limit = in.Limit
+	}
 	if in.StepMS > 0 && params.Step != 0 {
 		params.Step = time.Duration(in.StepMS) * time.Millisecond
 	}
@@ -191,6 +200,9 @@ func c02Exec(in c02Input) (c02Obs, []fakedocker.LogCall) {
 		eng := newEngine(q)
 		if in.LookbackS > 0 {
 			eng = logqlengine.NewEngine(q, logqlengine.Options{TracerProvider: noop.NewTracerProvider(), LookbackDuration: -time.Duration(in.LookbackS) * time.Second})
+		}
+		if in.Dots {
+			eng = logqlengine.NewEngine(q, logqlengine.Options{TracerProvider: noop.NewTracerProvider(), ParseOptions: logql.ParseOptions{AllowDots: true}})
 		}
 		if len(in.Before) > 0 {
 			// the earlier query, on the same Querier and Engine; then the daemon's inventory changes
@@ -394,7 +406,11 @@ func c02Check(r *vkit.Run, in c02Input) {
 				}
 			}
 		}
-		if (in.Shape == "log" || staged) && len(obs.Lines) != 2*len(want) {
+		if in.Limit > 0 {
+			if wantN := min(in.Limit, 2*len(want)); len(obs.Lines) != wantN {
+				fail(fmt.Sprintf("%d lines returned under limit %d, %d containers matched with 2 lines each", len(obs.Lines), in.Limit, len(want)), "")
+			}
+		} else if (in.Shape == "log" || staged) && len(obs.Lines) != 2*len(want) {
 			fail(fmt.Sprintf("%d lines returned, %d containers matched with 2 lines each", len(obs.Lines), len(want)), "")
 		}
 	}
@@ -456,7 +472,7 @@ func c02Classify(in c02Input, got, want []string) string {
 
 func c02Variants() []c02Ctr {
 	var out []c02Ctr
-	for _, ls := range []map[string]string{{}, {"k": "v"}, {"k": ""}, {"com.x/y": "v"}, {"k": "v", "com.x/y": "v"}, {"k": "", "com.x/y": "v"}} {
+	for _, ls := range []map[string]string{{}, {"k": "v"}, {"k": ""}, {"com.x/y": "v"}, {"k": "v", "com.x/y": "v"}, {"k": "", "com.x/y": "v"}, {"container.role": "v", "k.d": "v"}} {
 		for _, st := range []string{"running", "exited"} {
 			for _, img := range []string{"i1", "i2"} {
 				for _, n := range []string{"/a", "/b", "/ab"} {
@@ -470,7 +486,7 @@ func c02Variants() []c02Ctr {
 
 func c02Matchers() []c02Matcher {
 	var out []c02Matcher
-	for _, l := range []string{"container", "container_name", "container_image", "container_state", "k", "com_x_y", "nolabel"} {
+	for _, l := range []string{"container", "container_name", "container_image", "container_state", "k", "com_x_y", "nolabel", "container_role"} {
 		for _, op := range []string{"=", "!=", "=~", "!~"} {
 			for _, v := range []string{"a", "b", "ab", "", "a.*", ".*", ".+", "a|b", "v", "i1", "running", "^a|b$", "^(a)$", "(?i)A", "(?i)RUNNING|I1|V"} {
 				out = append(out, c02Matcher{Label: l, Op: op, Value: v})
@@ -563,6 +579,20 @@ func c02Run(r *vkit.Run) {
 			one(c02Input{Ctrs: inv, Matchers: []c02Matcher{all}, Shape: sh, StartNS: 0, EndNS: 3 * sec})
 			one(c02Input{Ctrs: inv, Matchers: []c02Matcher{{Label: "container_state", Op: "=", Value: "running"}}, Shape: sh, StartNS: 0, EndNS: 3 * sec})
 		}
+		// dotted names in the selector (an Engine that allows them): absent labels, whatever Docker labels sanitise to
+		for _, l := range []string{"k.d", "container.role", "com.x"} {
+			for _, op := range []string{"=", "!=", "=~", "!~"} {
+				for _, v := range []string{"v", "", ".*", ".+", "|v"} {
+					one(c02Input{Ctrs: inv, Matchers: []c02Matcher{{Label: l, Op: op, Value: v}}, Shape: "log", StartNS: 0, EndNS: 3 * sec, Dots: true})
+				}
+			}
+			one(c02Input{Ctrs: inv, Matchers: []c02Matcher{{Label: l, Op: "!=", Value: "v"}, {Label: "container_state", Op: "=", Value: "running"}}, Shape: "log", StartNS: 0, EndNS: 3 * sec, Dots: true})
+		}
+		for _, lim := range []int{1, 2, 3, 100} {
+			one(c02Input{Ctrs: inv, Matchers: []c02Matcher{all}, Shape: "log", StartNS: 0, EndNS: 3 * sec, Limit: lim})
+			one(c02Input{Ctrs: inv, Matchers: []c02Matcher{all}, Shape: "log-nostep", StartNS: 0, EndNS: 3 * sec, Limit: lim})
+			one(c02Input{Ctrs: inv, Matchers: []c02Matcher{all}, Shape: "stages:msg-filter", StartNS: 0, EndNS: 3 * sec, Limit: lim})
+		}
 		for _, lb := range []int{60, 5} {
 			one(c02Input{Ctrs: inv, Matchers: []c02Matcher{all}, Shape: "instant-log", StartNS: 100 * sec, EndNS: 100 * sec, LookbackS: lb})
 		}
@@ -589,7 +619,7 @@ func c02Run(r *vkit.Run) {
 		r.State(vkit.J(inv))
 	}
 	one(c02Input{Ctrs: invs[0], Matchers: nil, Shape: "log", StartNS: 0, EndNS: 3 * sec})
-	r.Note("bounds", fmt.Sprintf("%d container variants (3 names x 2 images x 2 states x 6 Docker-label sets) in %d inventories; %d single matchers (7 labels x 4 ops x 15 values incl. explicitly anchored alternations and case-insensitive literals) x 10 time ranges x 5 query shapes; matcher pairs on a 1/%d lattice; 15 (earlier selector, selector) pairs per inventory on a Querier that answered a query over a different inventory before", len(vars), len(invs), len(ms), pairStep))
+	r.Note("bounds", fmt.Sprintf("%d container variants (3 names x 2 images x 2 states x 7 Docker-label sets) in %d inventories; %d single matchers (8 labels x 4 ops x 15 values incl. explicitly anchored alternations and case-insensitive literals) x 10 time ranges x 5 query shapes; matcher pairs on a 1/%d lattice; 15 (earlier selector, selector) pairs per inventory on a Querier that answered a query over a different inventory before", len(vars), len(invs), len(ms), pairStep))
 }
 
 func c02Replay(r *vkit.Run, v vkit.Violation) *vkit.Violation {
